@@ -25,6 +25,12 @@ fn main() {
     let (name, vals_json): (String, serde_json::Value) = if args.len() == 3 && args[1] == "--file" {
         let v: serde_json::Value =
             serde_json::from_str(&std::fs::read_to_string(&args[2]).expect("read")).expect("json");
+        if let Some(w) = v["witness"].as_str() {
+            // a finding of an E3 query: its replay is the native witness program
+            let hit = witness::run(w).unwrap_or(false);
+            println!("{}", serde_json::json!({"witness": w, "failed": if hit { vec!["defect manifests"] } else { vec![] }}));
+            return;
+        }
         (
             v["harness"].as_str().expect("harness").to_string(),
             v["concrete_vals"].clone(),
